@@ -17,6 +17,22 @@ CHECKS = {
             "exhaustive for all token sequences up to the stated length in six contexts, statistical beyond.",
             "CPython 3.12 sys.monitoring; inputs nested <= 25 deep so RecursionError is never legitimate here.",
             "DESIGN.md section 2, C06"),
+    "C01": ("exploration",
+            "acceptance monitor at the parse() boundary over grammar-directed programs, gcc-accepted semantic programs and "
+            "the corpus, with a sys.monitoring production-coverage monitor",
+            "Stream 1: programs valid by construction of an independent grammar transcription (random translation units, all "
+            "expression contexts, declarator sweeps, statement trees) under random layouts; stream 2: programs accepted by "
+            "gcc -pedantic-errors under -std=c99/-std=c11; stream 3: zoo, preprocessed repository files, benchmark files; "
+            "plus size-scaled families and long declarators at every input offset.",
+            "Open findings K08/K09/K11/K12/K13 are exercised only by witness programs with neutralised twins.",
+            "DESIGN.md section 2, C01"),
+    "C08": ("translation_validation",
+            "translation-validation monitor: gcc -S output (-O0, -O1) of the regenerated text must equal that of the original "
+            "for every program gcc and pycparser accept; disagreements re-checked with clang LLVM IR",
+            "Each semantic-generator program (C99 and C11 feature sets) and each corpus file gcc accepts is one validated "
+            "translation under both generator configurations.",
+            "gcc 12 as reference compiler; generator programs gcc rejects are oracle faults (dropped, counted).",
+            "DESIGN.md section 2, C08"),
     "C02": ("exploration",
             "reference-model monitor: lock-step matcher between the AST returned by the real parser and the model "
             "tree each expression was rendered from (parentheses placed by an independent C99 6.5 level table)",
